@@ -32,6 +32,11 @@ Expected(b) ==
 Clause(c) ==
     CASE c = "one-reply"  -> \A k \in 1..Len(R.recv) : Replies(R.recv[k]) = 1
       [] c = "content"    -> \A k \in 1..Len(R.kinds) : R.kinds[k][3] = Expected(R.kinds[k][2])
+      \* query events after an expired one: only the requests sent on their own subjects reach their listeners and
+      \* callbacks (a request that arrives late on the subject of the expired event is not theirs), and only those are answered
+      [] c = "foreign"    -> /\ \A k \in 1..Len(R.recv) : \E j \in 1..Len(R.sent) : R.sent[j] = R.recv[k]
+                             /\ \A k \in 1..Len(R.cblog) : R.cblog[k] = "nil" \/ \E j \in 1..Len(R.sent) : R.sent[j] = R.cblog[k]
+                             /\ \A k \in 1..Len(R.replies) : (\E j \in 1..Len(R.sent) : R.sent[j] = R.replies[k][1]) \/ R.replies[k][2] = 0
       [] c = "callback-per-request" -> \A k \in 1..Len(R.recv) : R.badpayload[k] \/ Count(R.recv[k], R.cblog) = 1
       [] c = "nil-once"   -> (R.expired \/ R.failed) => Count("nil", R.cblog) = 1
       [] c = "nil-at-most-once" -> Count("nil", R.cblog) <= 1
